@@ -37,7 +37,10 @@ type LVal struct {
 	rootT types.Type
 	path  []pathEl
 	typ   types.Type
+	sl    string // lvElem: the slice term and the index within it (for trigger-friendly reads)
+	si    string
 	pure  *string
+	pval  **Val // for pure cells: the full Go-side value last stored (keeps function identity for closures)
 }
 
 type Val struct {
@@ -121,6 +124,8 @@ type Unit struct {
 	valueNames  []string
 	valueIdx    []int
 	assertsSeen map[string]bool
+	nonNil      map[string]bool
+	axiomsUsed  []string
 }
 
 func (u *Unit) fresh(prefix string) string {
@@ -227,6 +232,9 @@ func (u *Unit) readRoot(st *State, lv *LVal) string {
 	case lvHeap:
 		return fmt.Sprintf("(select %s %s)", h, lv.ref)
 	default:
+		if lv.sl != "" {
+			return fmt.Sprintf("(%s (select %s (s-arr %s)) %s %s)", u.sorts.atFn(lv.rootT), h, lv.sl, lv.sl, lv.si)
+		}
 		return fmt.Sprintf("(select (select %s %s) %s)", h, lv.ref, lv.idx)
 	}
 }
@@ -306,6 +314,8 @@ type retInfo struct {
 	reach string
 	vals  []*Val
 	st    *State
+	pos   string
+	tpos  token.Pos
 }
 
 type deferred struct {
@@ -334,6 +344,7 @@ type frame struct {
 	preState *State
 	binders  int
 	cellSeq  int
+	lets     *[][2]string // let bindings of the enclosing quantifier body
 }
 
 func (fr *frame) obName(kind, detail string) string {
@@ -543,15 +554,18 @@ func (u *Unit) newFrame(fn *ssa.Function, depth int, pure bool, prefix string) *
 }
 
 func (fr *frame) def(prefix string, t types.Type, term string) string {
-	if fr.pure {
-		return term
-	}
-	return fr.u.define(prefix, fr.u.sorts.sortOf(t), term)
+	return fr.defSort(prefix, fr.u.sorts.sortOf(t), term)
 }
 
+// defSort names a term: by a top-level define-fun outside quantifier bodies, by a let binding inside.
 func (fr *frame) defSort(prefix, sort, term string) string {
-	if fr.pure {
-		return term
+	if fr.binders > 0 {
+		if fr.lets == nil || (len(term) < 40 && !strings.Contains(term, "(ite")) {
+			return term
+		}
+		n := fr.u.fresh("let." + prefix)
+		*fr.lets = append(*fr.lets, [2]string{n, term})
+		return n
 	}
 	return fr.u.define(prefix, sort, term)
 }
@@ -867,5 +881,9 @@ func (fr *frame) assumeWF(t types.Type, term string, st *State, guard string) {
 		u.assume(guard, fmt.Sprintf("(< (s-arr %s) %s)", term, st.alloc))
 	case *types.Interface:
 		u.assume(guard, fmt.Sprintf("(< (i-val %s) %s)", term, st.alloc))
+		if n, ok := t.(*types.Named); ok && n.Obj().Pkg() != nil && u.eng.typeInv[n.Obj().Pkg().Path()+"."+n.Obj().Name()] == "nonnilptr" {
+			// declared invariant of this interface type: its dynamic values are never typed-nil pointers
+			u.assume(guard, fmt.Sprintf("(=> (not (= (i-tag %s) 0)) (not (= (i-val %s) 0)))", term, term))
+		}
 	}
 }
